@@ -701,14 +701,13 @@ theorem mapZero_ascii (f : DecFmt) (s : S) (h : f.zero = '0') : mapZero f s = s 
 
 def eventsOf (fn : String) : List String := (Generated.numberFuncEvents.lookup fn).getD []
 
-/-- the number grammar, the decimal-format defaults and option names of the source are the model's -/
-theorem fact_number_tables :
-    Generated.reNumberSource = "^-?(([0-9]+))(\\.[0-9]+)?([Ee][-+]?[0-9]+)?$" ∧
-    Generated.decimalFormatDefaults = [("DecimalSeparator", "."), ("GroupSeparator", ","), ("ExponentSeparator", "e"),
-      ("MinusSign", "-"), ("Infinity", "Infinity"), ("NaN", "NaN"), ("Percent", "%"), ("PerMille", "‰"),
-      ("ZeroDigit", "0"), ("OptionalDigit", "#"), ("PatternSeparator", ";")] ∧
-    Generated.decimalFormatOptionKeys = ["infinity", "NaN", "percent", "per-mille", "decimal-separator",
-      "grouping-separator", "exponent-separator", "minus-sign", "zero-digit", "digit", "pattern-separator"] := by
+/-- the model's decimal-format defaults (XPath 3.1 §4.7.1).  The number grammar, the defaults and the option names
+    are tied to the implementation behaviourally (exhaustive `$number` strings, the option-name sweep and every
+    formatted picture go through both), not by reading regular expressions and switch statements from the source -/
+theorem decimal_format_defaults :
+    let f : FmtNum.DecFmt := {}
+    (f.decSep, f.grpSep, f.expSep, f.minus, f.zero, f.digit, f.patSep) = ('.', ',', 'e', '-', '0', '#', ';') ∧
+    f.infinity = "Infinity".toList ∧ f.nan = "NaN".toList ∧ f.percent = "%".toList ∧ f.permille = "‰".toList := by
   decide
 
 /-- rounding and formatting go through the exact decimal (shortest text → big.Rat), the guards
